@@ -10,7 +10,7 @@ Three kinds of output, all regenerated from /repo's *current* working tree:
 Anything outside the supported C subset aborts the extraction (fail closed):
 the caller then reports the property as no longer shown.
 """
-import json, os, re, subprocess, sys, hashlib, tempfile
+import json, os, re, subprocess, sys, hashlib, tempfile, shutil
 
 REPO = os.environ.get("VERIF_REPO", "/repo")
 HERE = os.path.dirname(os.path.abspath(__file__))
@@ -18,6 +18,7 @@ ROOT = os.path.dirname(HERE)
 BUILD = os.environ.get("VERIF_BUILD", os.path.join(ROOT, "build"))
 MESON = os.path.join(BUILD, "meson-asan")
 GEN = os.path.join(ROOT, "lean", "Nice", "Gen")
+GEN_FINAL = GEN
 
 
 class Unsupported(Exception):
@@ -997,7 +998,31 @@ def bswap16 (x : UInt16) : UInt16 :=
 '''
 
 
+def publish():
+    """move the freshly generated files into place atomically, only when their content changed
+    (a concurrent `lake build` never sees a half-written file, and unchanged files keep their mtime)"""
+    for f in os.listdir(GEN):
+        src, dst = os.path.join(GEN, f), os.path.join(GEN_FINAL, f)
+        new = open(src).read()
+        if not os.path.exists(dst) or open(dst).read() != new:
+            tmp = dst + ".tmp%d" % os.getpid()
+            open(tmp, "w").write(new)
+            os.replace(tmp, dst)
+    shutil.rmtree(GEN, ignore_errors=True)
+
+
 def main():
+    global GEN
+    os.makedirs(GEN_FINAL, exist_ok=True)
+    GEN = tempfile.mkdtemp(prefix="gen", dir=BUILD)
+    try:
+        return main2()
+    finally:
+        if os.path.isdir(GEN):
+            publish()
+
+
+def main2():
     os.makedirs(GEN, exist_ok=True)
     report = {"kernels": {}, "consts": 0, "tables": {}, "errors": []}
     consts = eval_consts()
